@@ -68,6 +68,7 @@ Theorem all_encoders_classified :
     match ef_class f with
     | EDelegating | EContainer | EHeader => True
     | EPrelude => In (ef_type f) c03_enc_prelude_proved
+    | ETwinDeleg => True
     | ETwin => In (ef_type f) c03_enc_twin_proved \/ In (ef_type f) c03_enc_twin_explored
     | ESeparate => In (ef_type f) c03_enc_separate_proved \/ In (ef_type f) c03_enc_separate_explored
     end.
@@ -102,3 +103,11 @@ Qed.
 
 Theorem enc_delegate_size_needed : exists size cap out, enc_delegating_w size out <> enc_direct_sw cap out.
 Proof. exists 1, 2, (Some [0; 0]). vm_compute. discriminate. Qed.
+
+Theorem confrec_enc_agree : forall hdr isize cap out,
+  (forall bs, out = Some bs -> N.of_nat (List.length bs) <= isize /\ N.of_nat (List.length bs) <= cap) ->
+  confrec_enc_w hdr isize out = confrec_enc_sw hdr cap out.
+Proof.
+  intros hdr isize cap out H. unfold confrec_enc_w, confrec_enc_sw. destruct hdr as [h|]; [|reflexivity].
+  rewrite (enc_delegate_agree isize cap out H). reflexivity.
+Qed.
